@@ -52,6 +52,8 @@ namespace sim
          { "control", RC::CONTROL },
          { "w_cs", RC::W_CHANGE_STATE },
          { "w_css", RC::W_CHANGE_STATES },
+         { "mw_cs", RC::W_CHANGE_STATE },
+         { "mw_da", RC::W_DISABLE_ACTION },
          { "mw_ca", RC::W_CHANGE_ACTION },
          { "mw_cas", RC::W_CHANGE_ACTION_STATE },
          { "mw_cass", RC::W_CHANGE_ACTION_STATES },
